@@ -458,7 +458,8 @@ def gen_case(rng, tier):
     tabs = [pipes.gen_table(rng, f"d{i+1}", null_rate=rng.choice([0.0, 0.15]), types=("int", "float", "str"), unique_col="uid",
                             nrows=rng.choice([1, 2, 3, 4, 5, 6])) for i in range(2)]
     g = pipes.Gen(rng, tabs, features=FEATURES)
-    shape = rng.choice(["random", "random", "shared_join", "shared_concat", "merged_shared", "merged_shared", "narrowed_merge", "sqlnodes", "records"])
+    shape = rng.choice(["random", "random", "shared_join", "shared_concat", "merged_shared", "merged_shared", "narrowed_merge", "sqlnodes", "records",
+                        "window_over_reassigned", "window_over_reassigned", "same_step_two_inputs"])
     try:
         if shape == "random":
             s, colty, order = g.pipeline(rng.randint(1, 6 if big else 4))
@@ -515,6 +516,69 @@ def gen_case(rng, tier):
             if not nums:
                 return None
             s = {"op": "extend", "src": n1, "ops": {g.newcol(cm): f"{rng.choice(nums)} + 1"}}
+        elif shape == "window_over_reassigned":
+            # a plain extend RE-ASSIGNS (or creates) a column; the windowed extend directly above orders / partitions by it.
+            # The two may only be written as one SELECT if the window then still reads the new values: merge on/off must agree
+            t = tabs[0]
+            nums = [c for c, ty in t["spec"] if ty in ("int", "float") and c != "uid"]
+            if not nums:
+                return None
+            base = {"op": "table", "name": t["name"]}
+            colty, order = dict(t["spec"]), [c for c, _ in t["spec"]]
+            if rng.random() < 0.3:
+                base = {"op": "select_rows", "src": base, "expr": pipes.gen_bool_expr(rng, colty, 0)}
+            x = rng.choice(nums)
+            new = rng.random() < 0.25
+            xn = g.newcol(colty) if new else x
+            e = rng.choice([f"{x} * {x}", f"(-{x})", f"{x} * {x} - 3 * {x}", f"({x} - 2) * ({x} - 2)"])
+            low = {"op": "extend", "src": base, "ops": {xn: e}}
+            others = [c for c in nums if c != xn]
+            role = rng.choice(["order", "order", "order_rev", "partition"])
+            arg = rng.choice(others) if others and rng.random() < 0.5 else None
+            if role == "partition":
+                fn = rng.choice(["sum", "max", "count"])
+                win = {"op": "extend", "src": low, "ops": {"r": f"{arg or 'uid'}.{fn}()"}, "partition_by": [xn]}
+            else:
+                part = [c for c in order if colty[c] == "str"][:1] if rng.random() < 0.5 else []
+                fn = rng.choice(["_row_number()", "_row_number()", f"{arg or 'uid'}.cumsum()", f"{arg or 'uid'}.cummax()"])
+                win = {"op": "extend", "src": low, "ops": {"r": fn}, "partition_by": part, "order_by": [xn, "uid"],
+                       "reverse": [xn] if role == "order_rev" else []}
+            s = win
+            r = rng.random()
+            if r < 0.25:                                             # pass-through column selection in between / above
+                s = {"op": "select_columns", "src": s, "columns": [c for c in order if c != xn] + [xn, "r"]}
+            elif r < 0.4:
+                s = {"op": "extend", "src": s, "ops": {"rr": "r + 1"}}
+        elif shape == "same_step_two_inputs":
+            # textually identical steps over DIFFERENT inputs in the two branches of a concat / join: never one common table expression
+            t = tabs[0]
+            colty, order = dict(t["spec"]), [c for c, _ in t["spec"]]
+            nums = [c for c, ty in t["spec"] if ty in ("int", "float") and c != "uid"]
+            if not nums:
+                return None
+            base = {"op": "table", "name": t["name"]}
+            a_in = {"op": "select_rows", "src": base, "expr": "uid <= 1"}
+            b_in = {"op": "select_rows", "src": base, "expr": "uid > 1"}
+            if rng.random() < 0.4:                                   # ... or two tables with the same columns
+                t2 = dict(t, name="d2", rows=[[pipes.gen_value(rng, ty, 0.0) if c != "uid" else 100 + i for c, ty in t["spec"]] for i in range(rng.randint(1, 4))])
+                tabs[1] = t2
+                a_in, b_in = base, {"op": "table", "name": "d2"}
+            x = rng.choice(nums)
+            step = rng.choice([{"ops": {"z": f"{x} + 1"}}, {"ops": {x: f"{x} * 2"}},
+                               {"ops": {"z": f"{x}.cumsum()"}, "partition_by": [], "order_by": ["uid"]},
+                               {"ops": {"z": f"{x}.max()"}, "partition_by": 1}])
+
+            def ap(src):
+                cur = dict(step, op="extend", src=src)
+                if rng2 < 0.4:
+                    cur = {"op": "extend", "src": cur, "ops": {"zz": "uid + 1"}}       # a second step, merged into the first by the SQL generator
+                return cur
+            rng2 = rng.random()
+            a, b = ap(a_in), ap(b_in)
+            if rng.random() < 0.6:
+                s = {"op": "concat_rows", "src": a, "b": b, "id_column": None, "a_name": "a", "b_name": "b"}
+            else:
+                s = {"op": "natural_join", "src": a, "b": b, "on": ["uid"], "jointype": rng.choice(["LEFT", "INNER"])}
         elif shape == "records":                                     # record transforms (raw query steps over a sub-query)
             t = tabs[0]
             nums = []
@@ -900,6 +964,9 @@ def corr_terms(case, flags, rng, ntexts, stats):
                 terms.append("(CMerge %s %s None)" % (fl, cnear(t_off)))
                 stats["merge_raises"] = stats.get("merge_raises", 0) + 1
                 meta.append({"kind": "CMerge", "dialect": dialect, "on_raised": on[1]})
+    for tm in deps_terms(case, stats):
+        terms.append(tm)
+        meta.append({"kind": "CDeps"})
     # text
     keys = [(d, m) for (d, m), v in trees.items() if v[0] == "ok"]
     opts = all_options()
@@ -918,6 +985,46 @@ def corr_terms(case, flags, rng, ntexts, stats):
         terms.append("(CText %s %s %s %s %s)" % (cdialect(model), fl, copts(o), cnear(t), cs(sql)))
         meta.append({"kind": "CText", "dialect": d, "merges": m, "options": o, "bytes": len(sql)})
     return terms, meta
+
+
+def extend_nodes(ops, acc=None, seen=None):
+    acc, seen = ([] if acc is None else acc), (set() if seen is None else seen)
+    if id(ops) in seen:
+        return acc
+    seen.add(id(ops))
+    for s_ in getattr(ops, "sources", []) or []:
+        extend_nodes(s_, acc, seen)
+    if getattr(ops, "node_name", "") == "ExtendNode":
+        acc.append(ops)
+    return acc
+
+
+def deps_terms(case, stats):
+    """one CDeps case per extend node: the REAL declared_term_dependencies of the step extend_to_near_sql builds for it"""
+    from data_algebra.OrderedSet import OrderedSet
+    out = []
+    model = make_model("postgres", False)
+    for node in extend_nodes(case.ops):
+        try:
+            q = model.extend_to_near_sql(node, using=None, temp_id_source=[0])
+            deps = q.declared_term_dependencies
+            if deps is None or not q.mergeable:
+                continue
+            demand = list(OrderedSet(node.column_names).union(node.partition_by, node.order_by, node.reverse))
+            subops = []
+            for k, e in node.ops.items():
+                cols = set()
+                e.get_column_names(cols)
+                subops.append((k, sorted(str(c) for c in cols)))
+        except Exception:           # noqa
+            stats["deps_case_raised"] = stats.get("deps_case_raised", 0) + 1
+            continue
+        pair = lambda kv: "(%s, %s)" % (cs(kv[0]), clist(kv[1]))
+        out.append("(CDeps %s %s %s %s %s)" % (clist(demand), clist(subops, pair), clist(list(node.partition_by)), clist(list(node.order_by)),
+                                               clist([(k, sorted(str(x) for x in v)) for k, v in deps.items()], pair)))
+        if node.order_by or node.partition_by:
+            stats["deps_windowed"] = stats.get("deps_windowed", 0) + 1
+    return out
 
 
 def cont_nodes(t):
@@ -1038,7 +1145,7 @@ def run(chk):
     if os.path.exists(os.path.join(lib.COQ, "theories/Model/NearSqlCases.vo")):
         failing, errors, nchecked = lib.run_case_files("C04", PREAMBLE, terms, "check_cases", per_file=150)
         chk.cov["correspondence"] = {"cases": len(terms), "checked_in_coq": nchecked, "disagreements": len(failing), "errors": errors[:2],
-                                     "by_kind": {k: sum(1 for m in meta if m["kind"] == k) for k in ("CWith", "CText", "CMerge")}}
+                                     "by_kind": {k: sum(1 for m in meta if m["kind"] == k) for k in ("CWith", "CText", "CMerge", "CDeps")}}
         chk.cov["traces_validated_against_impl"] = nchecked
         if errors:
             chk.corr_break("correspondence case files failed to compile", errors[0])
